@@ -29,7 +29,7 @@ def run(ctx):
     q = ctx.quick()
     b.l1(ctx)
     b.graph(ctx, q)
-    b.traces(ctx, 3000 if q else 60000)
+    b.traces(ctx, 2500 if q else 60000)
     only(ctx, ["sound", "complete"])
     ctx.cov["rule"] = ("L2: every (program state, query) edge of the TLC-dumped Backward graph (programs of <=2 single-atom rules over 2 "
                        "boolean fields built step by step; every atomic goal, depths, DFS/BFS/iterative, max_solutions 1 and 3) plus "
